@@ -35,7 +35,7 @@ func newUnit(sh *Shared, cs *ContractSet, fn *ssa.Function) *Unit {
 	u := &Unit{w: w, cs: cs, root: fn, rootKey: key, contract: cs.ByKey[key],
 		notes: map[string]int{}, trustedUsed: map[string]int{}, inlined: map[string]int{}, declared: map[string]bool{}, oblNames: map[string]int{},
 		logical: map[string]envEntry{}, features: map[string]bool{}, libAssumed: map[string]int{}, unknownCalls: map[string]int{},
-		contractsUsed: map[string]int{}, typeInvUsed: map[string]int{}}
+		contractsUsed: map[string]int{}, typeInvUsed: map[string]int{}, termOrigin: map[string]string{}, guardedTerm: map[string]guardedVal{}, epochAlloc: map[int]Term{}}
 	if u.contract != nil {
 		u.props = u.contract.Props
 		u.contract.Used = true
@@ -217,12 +217,34 @@ func main() {
 		smtDir = *keep
 		os.MkdirAll(smtDir, 0o777)
 	}
-	// discharge
+	// discharge: first one incremental session per unit, then a per-obligation race for what is left
+	{
+		var bwg sync.WaitGroup
+		bsem := make(chan struct{}, *jobs)
+		for _, r := range results {
+			if r.Err != "" || r.Skipped != "" || len(r.Unit.obls) == 0 {
+				continue
+			}
+			r := r
+			r.Unit.usesStrAt()
+			bwg.Add(1)
+			bsem <- struct{}{}
+			go func() {
+				defer bwg.Done()
+				defer func() { <-bsem }()
+				batchDischarge(r.Unit, r.Unit.obls, smtDir, 2000)
+			}()
+		}
+		bwg.Wait()
+	}
 	which := solvers
 	var owg sync.WaitGroup
 	osem := make(chan struct{}, *jobs/2+1)
 	for _, o := range obls {
 		o := o
+		if o.Status == "discharged" {
+			continue
+		}
 		owg.Add(1)
 		osem <- struct{}{}
 		go func() {
